@@ -469,7 +469,7 @@ def exReq (n : String) : Message := .mk n.toList " Msg.\n".toList false [] [] []
 def exFile : File :=
   { path := "acme/foo/v1/types.proto".toList, pkg := "acme.foo.v1".toList,
     imports := [⟨"Dep/Bad.proto".toList, false, false, false⟩],
-    langOpts := [[], [], [], [], [], [], []],
+    langOpts := [none, none, none, none, none, none, none],
     msgs := [exOuter, exReq "GetFooRequest", exReq "GetFooResponse"],
     svcs := [⟨"FooService".toList, " Svc.\n".toList,
       [⟨"GetFoo".toList, " Get.\n".toList, "acme.foo.v1.GetFooRequest".toList, "acme.foo.v1.GetFooResponse".toList, false, false⟩]⟩] }
@@ -515,7 +515,7 @@ def exKindsMsg : Message :=
 
 def exKindsFile (fileExts : List Field) : File :=
   { path := "acme/foo/v1/kinds.proto".toList, pkg := "acme.foo.v1".toList,
-    langOpts := [[], [], [], [], [], [], []],
+    langOpts := [none, none, none, none, none, none, none],
     msgs := [exKindsMsg], exts := fileExts }
 
 def exKinds : Schema :=
